@@ -268,6 +268,12 @@ fn systematic_histories() -> Vec<History> {
             "fx yes; VS1=after-fx; cd d2",
             "unset -f fx",
         ),
+        (
+            "func-extglob-then-off",
+            "shopt -s extglob\nfx() { case \"$1\" in @(yes|y)) echo Y;; !(no|n)) echo other;; esac; }; VS1=kept",
+            "shopt -u extglob",
+            "fx y; cd d2",
+        ),
         ("shopt-then-var", "shopt -s nullglob dotglob; VS1=one", "shopt -u nullglob; VS1=two; alias a1='echo x'", "shopt -u dotglob"),
     ];
     let mut out = vec![];
